@@ -47,7 +47,18 @@ class Hist:
             self.out.append(f"typedef {self.rng.choice(['int', 'char *', 'long'])} {n} ;")
         else:
             # `T T;` style is avoided when the name is visible as a type in the same declaration
-            self.out.append(f"{self.rng.choice(['int', 'char', 'double'])} {self.rng.choice(['', '* '])}{n} ;")
+            form = self.rng.randint(0, 5)
+            bt = self.rng.choice(['int', 'char', 'double'])
+            if form <= 1:
+                self.out.append(f"{bt} {self.rng.choice(['', '* '])}{n} ;")
+            elif form == 2:
+                self.out.append(f"{bt} {n} ( int ) ;")            # a function declaration is an ordinary identifier too
+            elif form == 3:
+                self.out.append(f"{bt} {n} [ 2 ] ;")
+            elif form == 4:
+                self.out.append(f"{bt} ( * {n} ) ( void ) ;")
+            else:
+                self.out.append(f"{bt} other{self.n} , {n} ;")
         if prev is not None and prev != is_typedef:
             self.shadow += 1
         cur[n] = is_typedef
@@ -95,7 +106,9 @@ class Hist:
                 ptype = "int"
                 if self.lookup(pn) is True and r.random() < 0.5:
                     ptype = pn          # `T T`: the second T is the parameter's name
-                self.out.append(f"void fn{self.n} ( {ptype} {pn} ) {{")
+                lead = self.rng.choice(["", "", "int , ", "char q1 , ", "int , double , "])     # earlier (possibly unnamed) parameters
+                trail = self.rng.choice(["", "", " , long", " , ..."])
+                self.out.append(f"void fn{self.n} ( {lead}{ptype} {pn}{trail} ) {{")
                 self.scopes.append({pn: False})
                 if self.lookup(pn) is not None:
                     self.shadow += 1
